@@ -55,3 +55,16 @@ Require RV.Gen.Sites RV.Model.SiteMap RV.Proofs.SitesFacts.
 Theorem C12_literals_reviewed : RV.Model.SiteMap.literals_ok RV.Model.SiteMap.files_C12.
 Proof. apply RV.Proofs.SitesFacts.literals_okb_sound. vm_compute. reflexivity. Qed.
 Print Assumptions C12_literals_reviewed.
+
+(* ---- the version scan AS TRANSLATED FROM THE SOURCE on this run (see C07.v) ---- *)
+Require Import RV.Model.GenSupport RV.Gen.Code RV.Proofs.CodeFacts.
+
+Theorem C12_translated_version_scan_is_model :
+  forall m, gen_get_supported_version m = Ok (get_supported_version m).
+Proof. exact gen_get_supported_version_model. Qed.
+Print Assumptions C12_translated_version_scan_is_model.
+
+Theorem C12_translated_classifier_is_model :
+  forall srv d rest, gen_nonce_from_request (d ++ rest) (lenN d) srv = classify srv d.
+Proof. exact gen_nonce_from_request_model. Qed.
+Print Assumptions C12_translated_classifier_is_model.
